@@ -109,7 +109,7 @@ func (c *Chip) doInternalAuthenticate(p *apdu.Command, protected bool) ([]byte, 
 	}
 	sig = c.deviate("aa-signature", sig)
 	c.LastAA.Signature = sig
-	if p.Ne != 0 && len(sig) > p.Ne {
+	if c.Cfg.StrictAuthLe && p.Ne != 0 && len(sig) > p.Ne {
 		return nil, 0x6700
 	}
 	c.Done.AA = true
